@@ -279,8 +279,27 @@ let is_slice_of visited got =
   not (String.contains visited ' ') && not (String.contains got ' ') &&
   hex_substring (String.sub visited 1 (String.length visited - 1)) (String.sub got 1 (String.length got - 1))
 
-let c14v_oracle (obs : string) : string =
-  if has_prefix obs "compile:" then "ok" else
+let kind_letter (v : dm) : string =
+  match v with DMap _ -> "m" | DList _ -> "a" | DLink _ -> "l" | _ -> "s"
+let ctx_dump (v : dm) : string = String.map (fun c -> if c = ' ' then '_' else c) (string_of_dm v)
+let ctx_entry (lp : seg list) (ln : dm) (parent : dm) : string =
+  segs_text lp ^ "~" ^ ctx_dump ln ^ "~" ^ kind_letter parent
+(* every context handed to a chooser names the link node itself and its container (or, for a block whose root is a
+   link, the previous link node) *)
+let ctx_ok (ctx : string) : bool =
+  ctx = "" ||
+  List.for_all (fun e ->
+      match String.split_on_char '~' e with
+      | [_; ln; pk] -> String.length ln > 0 && ln.[0] = 'l' && not (String.contains ln '_') && (pk = "m" || pk = "a" || pk = "l")
+      | _ -> false) (String.split_on_char '+' ctx)
+
+let c14v_oracle (obs0 : string) : string =
+  if has_prefix obs0 "compile:" then "ok" else
+  let (obs, ctx) =
+    match String.split_on_char '|' obs0 with
+    | [b; c; x] when has_prefix x "ctx:" -> (b ^ "|" ^ c, String.sub x 4 (String.length x - 4))
+    | _ -> (obs0, "") in
+  if not (ctx_ok ctx) then "fail:link_context_wrong" else
   let i = String.rindex obs '|' in
   let body = String.sub obs 0 i in
   let fails = ref [] in
@@ -319,7 +338,14 @@ let c14v_model q sel root blocks =
             Some (segs_text p ^ ";" ^ (match rs with RMatch -> "m" | RCand -> "x") ^ ";" ^ string_of_dm nd ^ ";" ^
                   gt ^ ";=;=;" ^ reparse_text g r p gt)
           | ELoad _ -> None) evs in
-      String.concat "," vs ^ "|" ^ class_of o in
+      let removelast l = match List.rev l with [] -> [] | _ :: t -> List.rev t in
+      let ctx = List.filter_map (fun e ->
+          match e with
+          | ELoad (p, c, _) ->
+            let parent = match get g r (removelast p) with Ok v -> v | Err _ -> DNull in
+            Some (ctx_entry p (DLink c) parent)
+          | _ -> None) evs in
+      String.concat "," vs ^ "|" ^ class_of o ^ "|ctx:" ^ String.concat "+" ctx in
   model_obs
 
 let c14v_line q id sel root blocks obs =
@@ -410,14 +436,100 @@ let c14n_line q id sel root blocks script obs =
 let c14p_line id root blocks path obs =
   let g = parse_blocks blocks and r = dm_of_string root in
   let gt = get_text g r (parse_segs path) in
-  let model_obs = gt ^ ";=;=;" ^ reparse_text g r (parse_segs path) gt in
+  let (clog, _) = get_ctx g r [] (parse_segs path) in
+  let ctx = String.concat "+" (List.map (fun ((lp, ln), pr) -> ctx_entry lp ln pr) clog) in
+  let model_obs = gt ^ ";=;=;" ^ reparse_text g r (parse_segs path) gt ^ ";" ^ ctx in
   let verdict =
     match String.split_on_char ';' obs with
-    | [_; focus; step; rep] ->
+    | [_; focus; step; rep; ictx] ->
       let fails = (if step <> "=" then ["get_vs_stepwise"] else []) @ (if focus <> "=" then ["focus_differs"] else []) @
-                  (if rep <> "=" && rep <> "-" then ["reparse_differs"] else []) in
+                  (if rep <> "=" && rep <> "-" then ["reparse_differs"] else []) @
+                  (if not (ctx_ok ictx) then ["link_context_wrong"] else []) in
       if fails = [] then "ok" else "fail:" ^ String.concat "," fails
     | _ -> "fail:malformed_obs" in
+  print_string id; print_char '\t'; print_string model_obs; print_char '\t'; print_endline verdict
+
+(* c14t: WalkTransforming, oracle only (not modelled): every (path, node) handed to the TransformFn resolves with Get *)
+let c14t_line id obs =
+  let fails = ref [] in
+  let fail x = if not (List.mem x !fails) then fails := x :: !fails in
+  List.iter (fun v ->
+      match String.split_on_char ';' v with
+      | [_; visited; get] ->
+        if visited <> "" && visited.[0] = 'l' then (if get <> "ok " ^ visited then fail "link_block_root_followed")
+        else if get <> "ok " ^ visited then fail "transform_visit_unresolvable"
+      | _ -> fail "malformed_obs") (String.split_on_char ',' obs);
+  print_string id; print_char '\t'; print_string obs; print_char '\t';
+  print_endline (if !fails = [] then "ok" else "fail:" ^ String.concat "," (List.rev !fails))
+
+(* c14l: WalkLocal *)
+let c14l_line id root obs =
+  let r = dm_of_string root in
+  let vs = List.map (fun (p, nd) ->
+      let res = match get_local r p with
+        | Ok v -> if string_of_dm v = string_of_dm nd then "=" else "other:" ^ digest (string_of_dm v)
+        | Err _ -> "unresolvable" in
+      segs_text p ^ ";" ^ digest (string_of_dm nd) ^ ";" ^ res) (walk_local_all r) in
+  let model_obs = String.concat "," vs ^ "|ok" in
+  let i = try String.rindex obs '|' with Not_found -> 0 in
+  let body = String.sub obs 0 i in
+  let bad = body <> "" && List.exists (fun v ->
+      match String.split_on_char ';' v with [_; _; "="] -> false | _ -> true) (String.split_on_char ',' body) in
+  let verdict = if bad then "fail:walklocal_path_unresolvable" else "ok" in
+  print_string id; print_char '\t'; print_string model_obs; print_char '\t'; print_endline verdict
+
+(* decimal int64 -> Z; PathSegmentOfInt only looks at the sign of a negative value, so any negative number will do *)
+let z_of_dec (s : string) : z =
+  let i = Int64.of_string s in
+  if Int64.compare i 0L < 0 then z_of_int (-1) else z_of_hex (Printf.sprintf "%Lx" i)
+
+(* c14a: the Path API *)
+let c14a_line id start ops obs =
+  let p = ref (parse_segs start) in
+  let rep = ref [] in
+  let stop = ref false in
+  let show r = rep := (r ^ segs_text !p ^ "=" ^ hex_of_bytes (format_path !p)) :: !rep in
+  let after k op = String.sub op k (String.length op - k) in
+  if ops <> "" then
+    List.iter (fun op ->
+        if not !stop then begin
+          if has_prefix op "as:" then (p := path_append_string !p (bytes_of_hex (after 3 op)); show "")
+          else if has_prefix op "ap:" then (p := path_append_string !p (bytes_of_hex (after 3 op)); show "")
+          else if has_prefix op "ai:" then (p := path_append_int !p (z_of_dec (after 3 op)); show "")
+          else if has_prefix op "j:" then (p := path_join !p (parse_segs (after 2 op)); show "")
+          else if has_prefix op "t:" then begin
+            let i = int_of_string (after 2 op) in
+            let len = List.length !p in
+            match path_truncate !p (z_of_int (i mod (len + 1))) with
+            | Some q -> p := q; show ""
+            | None -> rep := "panic" :: !rep; stop := true
+          end
+          else if op = "pop" || op = "par" then (p := path_pop !p; show "")
+          else if op = "sh" then begin
+            let (h, rest) = path_shift !p in
+            p := rest;
+            show ("h" ^ (match h with Some sg -> hex_of_bytes (seg_string sg) | None -> "") ^ "/")
+          end
+          else if op = "last" then
+            show ("h" ^ (match path_last !p with Some sg -> hex_of_bytes (seg_string sg) | None -> "") ^ "/")
+          else if op = "len" then show (Printf.sprintf "n%d/" (List.length !p))
+        end) (String.split_on_char ',' ops);
+  let model_obs = String.concat "," (List.rev !rep) in
+  (* oracle: AppendSegmentString adds exactly one segment carrying exactly the given bytes *)
+  let verdict =
+    let opl = if ops = "" then [] else String.split_on_char ',' ops in
+    let reps = if obs = "" then [] else String.split_on_char ',' obs in
+    let segs_of r = match String.index_opt r '=' with
+      | Some i -> let b = String.sub r 0 i in (match String.rindex_opt b '/' with Some j -> String.sub b (j + 1) (String.length b - j - 1) | None -> b)
+      | None -> "" in
+    let rec chk prev opl reps =
+      match opl, reps with
+      | op :: ot, r :: rt ->
+        let cur = segs_of r in
+        if (has_prefix op "as:" || has_prefix op "ap:") && cur <> prev ^ "." ^ String.sub op 3 (String.length op - 3) then false
+        else chk cur ot rt
+      | _ -> true in
+    if chk start opl reps then "ok" else "fail:path_append_not_one_segment" in
   print_string id; print_char '\t'; print_string model_obs; print_char '\t'; print_endline verdict
 
 let c14r_line id segs obs =
@@ -619,6 +731,9 @@ let process line =
     | id :: "c14n" :: sel :: root :: blocks :: script :: obs :: _ -> c14n_line !cur_q id sel root blocks script obs
     | id :: "c14p" :: root :: blocks :: path :: obs :: _ -> c14p_line id root blocks path obs
     | id :: "c14r" :: segs :: obs :: _ -> c14r_line id segs obs
+    | id :: "c14t" :: _ :: _ :: _ :: obs :: _ -> c14t_line id obs
+    | id :: "c14l" :: root :: obs :: _ -> c14l_line id root obs
+    | id :: "c14a" :: start :: ops :: obs :: _ -> c14a_line id start ops obs
     | _ -> ()
   with Stack_overflow ->
     (match split_tab line with id :: _ -> print_string id; print_endline "\tmodel:stack_overflow\tskip" | _ -> ())
